@@ -73,3 +73,23 @@ def run_corpus_subset(ctx, prop):
     ctx.ob("CORPUS", "%s/self-test" % prop, not bad, "",
            "%d corpus patches for this property behave as expected (breaking ones reported, neutral ones silent)" % len(res) if not bad else
            "checker self-test: %s" % [(b["patch"], b["kind"], b["fired"]) for b in bad], what="checker self-test failed")
+
+
+RELEASE_PROOFS = {"C02": ("R24", "R25", "R22"), "C15": ("R22",), "C01": ("R25", "R22"), "C19": ("R25", "R22"), "C04": ("R21",)}
+
+
+def run_release_proofs(ctx, prop):
+    """the value-level proofs of Engine F once more on the release-profile MIR (unchecked arithmetic: every `x − c` the
+    proofs rely on must be shown not to wrap, where the dev profile has an overflow assert)"""
+    from . import rules_segments as RSG
+    prog = ctx.prog("rel")
+    for r in RELEASE_PROOFS.get(prop, ()):
+        rule = r + "@rel"
+        if r == "R24":
+            RSG.rule_r24_selection(ctx, prog, rule=rule)
+        elif r == "R25":
+            RSG.rule_r25_bulk_selection(ctx, prog, rule=rule)
+        elif r == "R22":
+            RSG.rule_r22_partition(ctx, prog, rule=rule)
+        elif r == "R21":
+            RSG.rule_r21_compaction(ctx, prog, rule=rule)
